@@ -138,6 +138,11 @@ func handle(r *Req) (resp Resp) {
 		if links != "" {
 			resp["parent_links"] = links
 		}
+		if len(nodes) == 1 {
+			eff := [][2][]string{}
+			sx.EffShared(nodes[0], 0, &eff)
+			resp["eff_shared"] = eff
+		}
 		return resp
 	case "tab":
 		setTabGlobals(r)
